@@ -28,6 +28,12 @@ sub('include/photospline/detail/bspline_eval.h', r'\(max\+lo\)', '(hi+lo)')
 sub('include/photospline/detail/bspline_eval.h', r'uint32_t max = ', 'uint32_t hi = ')
 sub('include/photospline/detail/bspline_eval.h', r'\t\t\t\tmax = centers', '\t\t\t\thi = centers')
 sub('src/core/convolve.cpp', r'\bacc\b', 'product')
+sub('include/photospline/detail/convolve.h', r'\bnorm\b', 'scale')
+sub('include/photospline/detail/convolve.h', r'\btrafo\b', 'transfer')
+sub('include/photospline/detail/convolve.h', r'\bstride2\b', 'inner')
+sub('include/photospline/detail/convolve.h', r'\bq\b', 'kernel_degree')
+sub('include/photospline/detail/fitsio.h', r'\bhduname\b', 'extname')
+sub('include/photospline/splinetable.h', r'\bsnew\b', 'fresh')
 sub('include/photospline/bspline.h', r'/\* Special case for constant splines \*/', '/* constant splines */')
 # comment + blank lines shift line numbers
 sub('include/photospline/splinetable.h', r'#include <algorithm>', '// a comment\n\n\n#include <algorithm>')
